@@ -1,8 +1,9 @@
 ---------------------------- MODULE Emit_Corrupt ----------------------------
-(* Writes the corruption universe of Corrupt.tla as JSON (IOEnv.OUT): {"catalogue": [...], "pairseeds": [...]}.          *)
+(* Writes the corruption universe of Corrupt.tla as JSON (IOEnv.OUT): {"catalogue", "pairseeds", "triples", "c02_closed"}.    *)
 EXTENDS Corrupt, Json, IOUtils, SequencesExt, TLC
 VARIABLE x
-Univ == [catalogue |-> SetToSeq(Catalogue), pairseeds |-> SetToSeq(PairSeeds), npairs |-> Cardinality(Pairs) \div 2, triples |-> SetToSeq(Triples)]
+Univ == [catalogue |-> SetToSeq(Catalogue), pairseeds |-> SetToSeq(PairSeeds), npairs |-> Cardinality(Pairs) \div 2, triples |-> SetToSeq(Triples),
+         c02_closed |-> SetToSeq(C02Closed)]
 ASSUME JsonSerialize(IOEnv.OUT, Univ) /\ PrintT(<<"Emit_Corrupt", Cardinality(Catalogue), Cardinality(PairSeeds), Cardinality(Pairs) \div 2>>)
 Init == x = 0
 Next == x' = x /\ UNCHANGED x
